@@ -317,8 +317,15 @@ func (fr *Frame) call0(in ssa.Instruction, c *ssa.CallCommon) []Val {
 		}
 	}
 	// site clauses (sink preconditions / asserts) are checked before the call
-	fr.siteClauses(in, c, ci.display, &ci, args)
+	fr.siteClauses(in, c, ci.display, &ci, args, nil, false)
+	res := fr.call1(in, c, ci, args, pos)
+	// "after callee#n ghost|assert": evaluated in the state after the call, with result / result0.. bound
+	fr.siteClauses(in, c, ci.display, &ci, args, res, true)
+	return res
+}
 
+func (fr *Frame) call1(in ssa.Instruction, c *ssa.CallCommon, ci calleeInfo, args []Val, pos token.Pos) []Val {
+	ex := fr.ex
 	if h := specialHandler(ci.display); h != nil {
 		return h.run(fr, in, c, ci, args)
 	}
@@ -782,7 +789,7 @@ func isWriteSink(display string) bool {
 // siteClauses checks "sink"/"at" clauses of the top function's contract that match this call.
 // Clauses apply to call sites of the function under contract; call sites inside inlined callees are addressed
 // as "<callee function name>:<pattern>". Every API write site must be covered by a sink clause (sink census).
-func (fr *Frame) siteClauses(in ssa.Instruction, c *ssa.CallCommon, display string, ci *calleeInfo, args []Val) {
+func (fr *Frame) siteClauses(in ssa.Instruction, c *ssa.CallCommon, display string, ci *calleeInfo, args []Val, results []Val, after bool) {
 	ex := fr.ex
 	top := ex.topContract
 	if top == nil {
@@ -817,6 +824,9 @@ func (fr *Frame) siteClauses(in ssa.Instruction, c *ssa.CallCommon, display stri
 		} else if strings.Contains(pat, ":") {
 			continue
 		}
+		if s.After != after {
+			continue
+		}
 		if !siteMatches(display, pat) {
 			continue
 		}
@@ -829,13 +839,21 @@ func (fr *Frame) siteClauses(in ssa.Instruction, c *ssa.CallCommon, display stri
 		ex.markSite(si)
 	}
 	if len(matched) == 0 {
-		if isWriteSink(display) && !ex.sweepOnly {
+		if !after && isWriteSink(display) && !ex.sweepOnly {
 			ex.failOb("sink-census", fmt.Sprintf("%s%s#%d", prefix, lastSeg(display), fr.callOrdinal(in, display)),
 				"API write call "+shortName(display)+" in "+fr.fn.Name()+" has no sink clause in the contract of "+shortName(canonName(ex.top)), in.Pos())
 		}
 		return
 	}
 	names := map[string]Val{}
+	if after {
+		for i, r := range results {
+			names[fmt.Sprintf("result%d", i)] = r
+		}
+		if len(results) == 1 {
+			names["result"] = results[0]
+		}
+	}
 	if ci != nil {
 		// only positional names (arg0.., recv, varargs): callee parameter names must not shadow the caller's locals
 		if ci.recv != nil {
@@ -986,6 +1004,14 @@ func (fr *Frame) tryInline(in ssa.Instruction, fn *ssa.Function, args []Val, fre
 		child.contract = ct
 	} else if ct, has := ex.S.Contracts[shortName(canonName(fn))]; has {
 		child.contract = ct
+	} else if top := ex.topContract; top != nil && len(top.AnchoredLoops) > 0 && fn.Pkg != nil && ex.top != nil && fn.Pkg == ex.top.Pkg {
+		// a helper without a contract of its own (code extracted from the function under contract): the anchored loop
+		// specs of the contract being verified follow the loop into the helper
+		al := map[int]*LoopSpec{}
+		for _, k := range top.AnchoredLoops {
+			al[k] = top.Loops[k]
+		}
+		child.contract = &Contract{Key: top.Key + "/anchored", Loops: al, AnchoredLoops: top.AnchoredLoops}
 	}
 	for i, p := range fn.Params {
 		if i < len(args) {
